@@ -85,6 +85,10 @@ def run_check(pid, tier, seed, replay=None, nworkers=None, verbose=True):
     os.makedirs(os.path.join(ROOT, 'evidence'), exist_ok=True)
     env = env_for_workers()
 
+    if not replay:
+        for fn in os.listdir(os.path.join(WORK, 'replays', pid)):
+            if fn.startswith(f'seed{seed}_{tier}_'):
+                os.remove(os.path.join(WORK, 'replays', pid, fn))
     if replay:
         with open(replay) as f:
             rp = json.load(f)
@@ -248,7 +252,11 @@ def run_check(pid, tier, seed, replay=None, nworkers=None, verbose=True):
         print(f"[{pid}] mechanism counters: {json.dumps(mech, sort_keys=True)}")
     if replay:
         for r in results:
-            print(json.dumps({k: v for k, v in r.items() if k != 'case'}, indent=1, default=str)[:6000])
+            print(json.dumps({k: v for k, v in r.items() if k not in ('case', 'spec', 'generated_source', 'sample')},
+                             indent=1, default=str)[:6000])
+            for src in (r.get('generated_source') or []):
+                print('----- generated source (tail) -----')
+                print(src)
     if viol:
         return 1
     if inconclusive:
